@@ -798,6 +798,10 @@ def run(U, rep, tier):
   # scene, spring_mass_scale symbolic (shared with C04 R4.1)
   from braxlint.props.c16 import _Relabel
   from braxlint.props import c04 as _c04
+  # R6.10: "link rotations stay unit quaternions either way": the typestate rule of C16 R16.7 (every rotation a step
+  # returns is renormalised exactly on every path)
+  from braxlint.props import c16 as _c16
+  _c16.r16_7(U, _Relabel(rep, 'R6.10'))
   _c04.momentum(U, _Relabel(rep, 'R6.9'), tier, only=('two_body_system',))
   # R6.6: limits whose range does not contain 0 are inert for a system at rest inside them -- the quantity a limit must
   # NOT act on (a slide's rotation angle, a hinge's offset) is 0, outside such a range (shared with C04 R4.5)
